@@ -346,6 +346,20 @@ func c07Run(c core.Case) core.Result {
 	if want := ref.out.String(); out != want {
 		return core.Violation("scoping", fmt.Sprintf("%s (context %v) renders\n    %q, want\n    %q", p.sb.String(), ctx, out, want))
 	}
+	if c.N[1] == 0 && (level == 0 || len(c.N) == 3) {
+		// (flat programs and single compound statements:) the empty context also as a nil map, executed twice on one environment: whatever the first execution
+		// assigned is gone in the second
+		env := c07Env()
+		for round := 1; round <= 2; round++ {
+			out, err, pan := tryExec(env, src, nil)
+			if pan != "" || err != nil {
+				return core.Violation("error", fmt.Sprintf("%q with a nil context (execution %d): %v %s", src, round, err, pan))
+			}
+			if want := ref.out.String(); out != want {
+				return core.Violation("scoping", fmt.Sprintf("%s with a nil context, execution %d on the same environment, renders\n    %q, want\n    %q", p.sb.String(), round, out, want))
+			}
+		}
+	}
 	return core.Okay(len(prog) > 1, out)
 }
 
